@@ -125,6 +125,9 @@ func exec(op string) string {
 	if len(steps) > 0 && strings.HasPrefix(steps[0], "g=") {
 		return execG(steps)
 	}
+	if len(steps) > 0 && strings.HasPrefix(steps[0], "t=") {
+		return execT(steps)
+	}
 	if len(steps) == 0 || !strings.HasPrefix(steps[0], "w=") {
 		return "bad-op"
 	}
@@ -444,6 +447,9 @@ func genScript(r *vh.Rand, algo, n int, force bool) string {
 
 func gen(r *vh.Rand) string {
 	if r.Chance(1, 8) {
+		if r.Chance(1, 3) {
+			return genT(r)
+		}
 		return genG(r)
 	}
 	var n int
